@@ -358,6 +358,7 @@ let handle line =
     ses.lvl <- rebuild via ses.lvl os;
     resync ();
     Printf.sprintf "= perm=%d %s" (if okp then 1 else 0) (string_of_state ses.lvl)
+  | ["GEN"; n] -> ses.gen <- n_of_string n; "= ok"
   | ["RESYNC"] -> resync (); "= ok" ^ ideal_suffix ()
   | ["ADDTX"; init; qs] ->
     let taker = oid_of_string "u424242" in
